@@ -39,7 +39,7 @@ BUDGET = {"quick": 72, "thorough": 1500}
 TIME_CAP = {"quick": 80, "thorough": 1700}
 MAX_SHARDS = 4
 PROFILE = {"max_pops": 2, "p_timed": 0.0, "p_junction": 0.2, "max_steps": 6, "extreme": 0.0, "p_function": 0.1, "p_programs": 0.45, "max_ord": 3, "p_limits": 0.15}
-WORKERS = [1, 2, 2, 3, 4, 4, 8, 16]
+WORKERS = [2, 4, 1, 3, 2, 8, 4, 16]
 SEEDS = st.integers(0, 2**32 - 1)
 
 
@@ -67,7 +67,7 @@ def cases(draw, tier="quick"):
         n = draw(st.integers(workers + 1, 32))
     else:
         n = draw(st.integers(2, 32))
-    return {"src": src, "unc": unc, "n": n, "par": par, "workers": workers, "seed": draw(SEEDS), "par_seed": draw(SEEDS), "probe_seeds": [draw(SEEDS) for _ in range(3)]}
+    return {"src": src, "unc": unc, "n": n, "par": par, "workers": workers, "seed": draw(SEEDS), "par_seed": draw(SEEDS), "probe_seeds": draw(st.lists(SEEDS, min_size=3, max_size=3, unique=True))}
 
 
 def strategy(tier):
@@ -121,6 +121,7 @@ def static_cases(tier):
     out.append(mk({"kind": "spec", "spec": _hand(zero_sigma)}, "zero", 5, "project", 2, 11))
     out.append(mk({"kind": "spec", "spec": _hand(no_sigma)}, "none", 4, "serial-only", None, 12))
     out.append(mk({"kind": "lib", "name": "udt", "progs": True, "start_off": 1, "par": [[0, {"rel": 0.01}]], "prog": [], "covout": [[0, 0.01, 0.4]]}, "both", 6, "ensemble", None, 13))
+    out.append(mk({"kind": "lib", "name": "udt", "progs": False, "start_off": 1, "par": [[1, {"rel": 0.01}]], "prog": [], "covout": []}, "par", 20, "ensemble", None, 15))
     out.append(mk({"kind": "lib", "name": "tb_simple", "progs": True, "start_off": 1, "par": [[3, 0.0]], "prog": [[1, "unit_cost", 0.0]], "covout": [[0, 0.0, 0.95]]}, "zero", 4, "project", 2, 14))
     return out
 
@@ -291,7 +292,7 @@ def check(case):
         fps = [_pd_digest(s) for s in ens.samples]
         judge(fps, "Ensemble.run_sims(parallel)", "ensemble-parallel", "Ensemble.run_sims(parallel=True) on %d CPUs" % ncpu)
         labels.append("api:ensemble")
-        nontrivial = ncpu >= 2 and n > min(ncpu, n) - 1 and n >= 2 and sensitive and n > ncpu
+        nontrivial = sensitive and ncpu >= 2 and n > ncpu
     else:
         labels.append("serial-only")
     labels.append("samples:%s" % ("2-4" if n <= 4 else "5-8" if n <= 8 else "9-16" if n <= 16 else "17-32"))
